@@ -9,10 +9,12 @@ import (
 	"time"
 
 	"github.com/prometheus/client_golang/prometheus"
+	"github.com/prometheus/client_golang/prometheus/vsched"
 	dto "github.com/prometheus/client_model/go"
 
 	"verifharness/internal/cli"
 	"verifharness/internal/emit"
+	"verifharness/internal/schedx"
 )
 
 // C06: summary with objectives -- count/sum exact, quantiles reflect only the sliding window.
@@ -640,6 +642,11 @@ func runC06(c *cli.Ctx) error {
 		return err
 	}
 
+	// ---- stream sched: the instrumented real code under explored schedules ----
+	if err := c06Sched(c, r); err != nil {
+		return err
+	}
+
 	// ---- stream stress: real goroutines, concurrent Observe and Write ----
 	if err := c06Stress(c, r); err != nil {
 		return err
@@ -803,5 +810,174 @@ func c06KnownZero(c *cli.Ctx) error {
 		w.Tag("hung", 1)
 	}
 	w.Add(emit.Tup(o.term(), emit.Z(0), opsTerm(ops), impl), false, "known:stream-duration-zero")
+	return w.Flush()
+}
+
+// ---------- schedule exploration (binary built with overlay_sched.json) ----------
+// summary.go is instrumented at check time: every Mutex.Lock / Mutex.Unlock is a schedule point and the
+// `go` statement of asyncFlush creates a managed thread whose first step is "go-start". Small programs
+// (2-3 threads x 1-3 calls, BufCap 1-3 so that the full-buffer path runs, a clock that advances with the
+// scheduler's step counter so that the expiry path runs) are explored depth-first (exhaustively when the
+// tree has at most 120 schedules) plus seeded random schedules; every run emits the schedule, the canonical
+// per-step labels, and every call's result and logical invocation/response times.
+type c06SOp struct {
+	write bool
+	v     float64
+}
+
+type c06Rec struct {
+	tid, idx int
+	ret      string
+	inv, res int64
+}
+
+func c06SchedProgs(r *emit.Rng) [][]c06SOp {
+	nthreads := 2 + r.Intn(2)
+	maxOps := 3
+	if nthreads == 3 {
+		maxOps = 2
+	}
+	progs := make([][]c06SOp, nthreads)
+	next := 0
+	for t := range progs {
+		n := 1 + r.Intn(maxOps)
+		for i := 0; i < n; i++ {
+			if r.Chance(1, 3) {
+				progs[t] = append(progs[t], c06SOp{write: true})
+			} else {
+				progs[t] = append(progs[t], c06SOp{v: math.Ldexp(1, next)}) // distinct powers of two identify the observation
+				next++
+			}
+		}
+	}
+	// at least one collector and one observer
+	progs[0][len(progs[0])-1] = c06SOp{write: true}
+	if progs[1][0].write {
+		progs[1][0] = c06SOp{v: math.Ldexp(1, next)}
+	}
+	return progs
+}
+
+func c06Sched(c *cli.Ctx, r *emit.Rng) error {
+	w := emit.NewWriter(c.Out, "C06", "sched")
+	schedules, programs, exhaustive, withFlusher, withExpiry := 0, 0, 0, 0, 0
+	budget := 1500 * c.Scale
+	for schedules < budget {
+		progs := c06SchedProgs(r)
+		o := c06Opts{objs: c06Objs(r)}
+		if len(o.objs) > 2 {
+			o.objs = o.objs[:2]
+		}
+		n := int64(1 + r.Intn(3))
+		o.ageBuckets = uint32(n)
+		d := []int64{1, 2, 3, 7, 1000}[r.Intn(5)]
+		o.maxAge = d*n + int64(r.Intn(int(n)))
+		o.bufCap = uint32(1 + r.Intn(3))
+		if r.Chance(1, 6) {
+			o.bufCap = 5
+		}
+		rate := int64(r.Intn(3))
+		t0 := c06T0(r)
+		programs++
+		var recs [][]c06Rec
+		mk := func() []func() {
+			clk := func() time.Time {
+				if vsched.Active() {
+					return time.Unix(0, t0+rate*vsched.Now())
+				}
+				return time.Unix(0, t0)
+			}
+			var objs map[float64]float64
+			objs = map[float64]float64{}
+			for _, p := range o.objs {
+				objs[p[0]] = p[1]
+			}
+			s := prometheus.VerifC06NewSummary(prometheus.SummaryOpts{Name: "s", Help: "h", Objectives: objs,
+				MaxAge: time.Duration(o.maxAge), AgeBuckets: o.ageBuckets, BufCap: o.bufCap}, clk, nil, nil)
+			recs = make([][]c06Rec, len(progs))
+			bodies := make([]func(), len(progs))
+			for ti := range progs {
+				ti := ti
+				bodies[ti] = func() {
+					for i, op := range progs[ti] {
+						inv := vsched.Now()
+						var ret string
+						if op.write {
+							x := c06Collect(s)
+							qs := make([]string, len(x.qs))
+							for j, q := range x.qs {
+								v := q.v
+								if q.isNaN {
+									v = math.NaN()
+								}
+								qs[j] = emit.Tup(emit.F(q.q), emit.B(q.isNaN), emit.F(v))
+							}
+							ret = emit.C(1, emit.Tup(emit.U(x.count), emit.F(x.sum), emit.L(qs)))
+						} else {
+							s.Observe(op.v)
+							ret = emit.C(0)
+						}
+						recs[ti] = append(recs[ti], c06Rec{tid: ti, idx: i, ret: ret, inv: inv, res: vsched.Now()})
+					}
+				}
+			}
+			return bodies
+		}
+		ps := make([]string, len(progs))
+		for i, p := range progs {
+			os := make([]string, len(p))
+			for j, op := range p {
+				if op.write {
+					os[j] = emit.C(1)
+				} else {
+					os[j] = emit.C(0, emit.F(op.v))
+				}
+			}
+			ps[i] = emit.L(os)
+		}
+		progsSx := emit.L(ps)
+		visit := func(res vsched.Result) {
+			var all []string
+			for _, rr := range recs {
+				for _, x := range rr {
+					all = append(all, emit.Tup(emit.I(x.tid), emit.I(x.idx), x.ret, emit.Z(x.inv), emit.Z(x.res)))
+				}
+			}
+			sched, tr := schedx.TraceSx(res.Trace, true)
+			tags := []string{fmt.Sprintf("threads:%d", len(progs)), fmt.Sprintf("bufcap:%d", o.bufCap), fmt.Sprintf("clock-rate:%d", rate)}
+			fl, ex := false, false
+			for _, st := range res.Trace {
+				if st.Label == "go-start" {
+					fl = true
+				}
+			}
+			if fl {
+				tags = append(tags, "flusher-goroutine-ran")
+				withFlusher++
+			}
+			if rate > 0 && int64(len(res.Trace))*rate > d {
+				ex = true
+				tags = append(tags, "clock-passes-expiry")
+				withExpiry++
+			}
+			_ = ex
+			w.Add(emit.Tup(emit.I(7), o.term(), emit.Z(t0), emit.Z(rate), progsSx, sched, tr, emit.L(all), emit.I(schedx.Flags(res))),
+				len(res.Trace) >= 8, tags...)
+		}
+		nruns, complete := schedx.Explore(mk, 120, 4000, visit)
+		schedules += nruns
+		if complete {
+			exhaustive++
+		}
+		for k := 0; k < 15; k++ {
+			visit(schedx.Random(mk, r, 4000))
+			schedules++
+		}
+	}
+	w.Extra["programs"] = programs
+	w.Extra["programs_explored_exhaustively"] = exhaustive
+	w.Extra["schedules"] = schedules
+	w.Extra["schedules_with_flusher_goroutine"] = withFlusher
+	w.Extra["schedules_where_clock_passes_expiry"] = withExpiry
 	return w.Flush()
 }
